@@ -1,6 +1,6 @@
 (* Dispatcher: one protocol line in, one observation line out.  This is the function the
    extracted driver (ocaml/driver.ml) and the in-Coq cross-check (Eval vm_compute) both run. *)
-From OA Require Import Bytes Proto ErrorCodes DevicePoll DeviceKinds FormUrlencoded Base64 Sha256 Requests Pkce AuthUrl ReqSpec Secrets ClientCfg UrlTypes Json Endpoint Serde Http DebugFmt DebugShapes.
+From OA Require Import Bytes Proto ErrorCodes DevicePoll DeviceKinds FormUrlencoded Base64 Sha256 Requests Pkce AuthUrl ReqSpec Secrets ClientCfg UrlTypes Json Endpoint Serde Http DebugFmt DebugShapes Adapters.
 From Coq Require Import ZArith.
 
 Definition run_c14 (ws : list bytes) : bytes :=
@@ -864,6 +864,64 @@ Definition run_ilv (ws : list bytes) : bytes :=
   | _ => bad_case
   end.
 
+(* ---------------------------------------------------------------- C09: adapters over loopback *)
+
+Definition parse_adapter (t : bytes) : option adapter :=
+  if is_kw "reqwest" t then Some ReqwestAsync else if is_kw "reqwest_blocking" t then Some ReqwestBlocking
+  else if is_kw "curl" t then Some Curl else if is_kw "ureq" t then Some Ureq else None.
+
+(* NET adapter reqbody auth path | status ct framing body fault *)
+Definition run_net (ws : list bytes) : bytes :=
+  match ws with
+  | [ad; reqbody; auth; path; _bar; status; ct; _framing; body; fault] =>
+      match parse_adapter ad, untok_bytes reqbody, untok_opt auth, untok_bytes path,
+            N_of_dec status, untok_opt ct, untok_bytes body with
+      | Some a, Some reqbody, Some auth, Some path, Some status, Some ct, Some body =>
+          let req := {| rq_method := s2b "POST"; rq_target := path;
+                        rq_headers := (s2b "accept", s2b "application/json")
+                                      :: (s2b "content-type", s2b "application/x-www-form-urlencoded")
+                                      :: match auth with Some v => [(s2b "authorization", v)] | None => [] end;
+                        rq_body := reqbody |} in
+          let lr := to_lib a req in
+          let srv :=
+            if is_kw "refused" fault then s2b "srv:0"
+            else unwords [s2b "srv:1"; lr_method lr; tok_bytes (lr_target lr);
+                          s2b "accept=" ++ tok_opt (lookup (s2b "accept") (lr_headers lr));
+                          s2b "ct=" ++ tok_opt (lookup (s2b "content-type") (lr_headers lr));
+                          s2b "auth=" ++ tok_opt (lookup (s2b "authorization") (lr_headers lr));
+                          s2b "body=" ++ tok_bytes (lr_body lr)] in
+          let behaviour :=
+            if is_kw "none" fault then SReply {| w_status := status; w_ct := ct; w_body := body |}
+            else SFault in
+          let cli := match adapter_call a behaviour with
+                     | Some r => unwords [s2b "cli:"; s2b "ok"; dec_of_N (w_status r); tok_opt (w_ct r);
+                                          tok_bytes (w_body r)]
+                     | None => s2b "cli: err"
+                     end in
+          srv ++ s2b " | " ++ cli
+      | _, _, _, _, _, _, _ => bad_case
+      end
+  | _ => bad_case
+  end.
+
+(* NETFLOW adapter status ct body : exchange_code through the adapter = through memory *)
+Definition run_netflow (ws : list bytes) : bytes :=
+  match ws with
+  | [ad; status; ct; body] =>
+      match parse_adapter ad, N_of_dec status, untok_opt ct, untok_bytes body with
+      | Some a, Some status, Some ct, Some body =>
+          match adapter_call a (SReply {| w_status := status; w_ct := ct; w_body := body |}) with
+          | Some r =>
+              render_outcome_gen (fun v => s2b "ok " ++ render_token render_unit v)
+                (render_error basic_as_ref) (token_outcome ef_empty (w_status r) (w_ct r) (w_body r))
+              ++ s2b " srv:1"
+          | None => s2b "request srv:1"
+          end
+      | _, _, _, _ => bad_case
+      end
+  | _ => bad_case
+  end.
+
 Definition run_line (line : bytes) : bytes :=
   match words line with
   | p :: ws =>
@@ -891,6 +949,8 @@ Definition run_line (line : bytes) : bytes :=
       else if is_kw "HTTP" p then run_http ws
       else if is_kw "DBG" p then run_dbg ws
       else if is_kw "ILV" p then run_ilv ws
+      else if is_kw "NET" p then run_net ws
+      else if is_kw "NETFLOW" p then run_netflow ws
       else if is_kw "DECODE" p then run_decode ws
       else if is_kw "BUILT" p then run_built ws
       else if is_kw "URLP" p then run_urlp ws
